@@ -352,6 +352,14 @@ impl RecordSet {
             //   everything under it (via DNAME).
             RecordType::CNAME | RecordType::ANAME => {
                 assert!(self.records.len() <= 1);
+
+                // re-adding the very same record is not an update
+                if let Some(existing) = self.records.first() {
+                    if *existing == record && existing.ttl == record.ttl {
+                        return false;
+                    }
+                }
+
                 self.records.clear();
             }
             _ => (),
